@@ -521,6 +521,56 @@ class History:
         self.after(self.trace[-1])
         self.compare_model(live, self.trace[-1])
 
+    def op_reparam(self, li, live):
+        """set_params to a NEW value: from the next fit on the object must be a fresh estimator with the new parameters."""
+        import copy as _copy
+
+        self.last_query = None
+        spec = _copy.deepcopy(live.spec)
+
+        def change(sp, est):
+            kind = sp[0]
+            if kind == "trend":
+                sp[1] = sp[1] % 3 + 1
+                est.set_params(degree=sp[1])
+                self._changed = (est, "degree", sp[1])
+            elif kind == "spline":
+                sp[1] = 0.5 if sp[1] is None else sp[1] * 7.0
+                est.set_params(damping=sp[1])
+                self._changed = (est, "damping", sp[1])
+                self._changed = (est, "damping", sp[1])
+            elif kind == "knn":
+                sp[1] = sp[1] % 4 + 1
+                est.set_params(k=sp[1])
+                self._changed = (est, "k", sp[1])
+            elif kind == "vspline":
+                sp[1] = sp[1] * 7.0
+                est.set_params(damping=sp[1])
+                self._changed = (est, "damping", sp[1])
+                self._changed = (est, "damping", sp[1])
+            elif kind == "chain":
+                return change(sp[1][0], est.steps[0][1])
+            elif kind == "vector":
+                return change(sp[1][0], est.components[0])
+            else:
+                return False
+            return True
+
+        self.trace.append(f"L{li}.set_params(<new value>)")
+        if not self.must(self.trace[-1], lambda: change(spec, live.obj)):
+            self.trace[-1] += " (no parameter to change)"
+            return
+        live.spec = spec
+        self.flags["copy"] = True
+        self.probe("reparameterised_between_fits")
+        est, name, value = self._changed
+        if est.get_params(deep=False).get(name) != value:
+            raise Violation("set-params", f"{self.trace[-1]}: get_params()[{name!r}] does not report the value just set ({value!r})")
+        # what an already fitted object does between set_params and the next fit is not specified
+        if live.touched:
+            live.unknown = True
+        self.after(self.trace[-1])
+
     def op_perturb(self):
         self.trace.append("perturb global RNG")
         if self.tape.draw(2, "perturb.kind"):
@@ -533,7 +583,7 @@ class History:
     def op_seeded(self):
         import verde as vd
 
-        kind = self.tape.pick(["scatter_points", "blockkfold", "blockshuffle", "tts", "tts_blocked", "kfold_default_cv"], "seeded.kind")
+        kind = self.tape.pick(["scatter_points", "blockkfold", "blockshuffle", "tts", "tts_blocked", "kfold_default_cv", "blockkfold_object", "blockshuffle_object", "cv_object_in_cross_val_score"], "seeded.kind")
         seed = self.tape.draw(1000, "seeded.seed")
         ds = self.u.datasets[1][self.tape.draw(len(self.u.datasets[1]), "seeded.ds")]
         X = np.column_stack([np.ravel(ds.coordinates[0]), np.ravel(ds.coordinates[1])])
@@ -548,6 +598,16 @@ class History:
             thunk = lambda: vd.train_test_split(ds.coordinates, ds.data_arg(), ds.weights_arg(), random_state=seed, test_size=0.3)  # noqa: E731
         elif kind == "tts_blocked":
             thunk = lambda: vd.train_test_split(ds.coordinates, ds.data_arg(), ds.weights_arg(), random_state=seed, test_size=0.4, spacing=25.0)  # noqa: E731
+        elif kind == "blockkfold_object":
+            # ONE splitter object used again and again: its splits must not depend on how often it was used
+            cvobj = vd.BlockKFold(spacing=34.0, n_splits=2, shuffle=True, random_state=seed)
+            thunk = lambda: [(a.copy(), b.copy()) for a, b in cvobj.split(X)]  # noqa: E731
+        elif kind == "blockshuffle_object":
+            cvobj = vd.BlockShuffleSplit(spacing=25.0, n_splits=2, test_size=0.3, random_state=seed)
+            thunk = lambda: [(a.copy(), b.copy()) for a, b in cvobj.split(X)]  # noqa: E731
+        elif kind == "cv_object_in_cross_val_score":
+            cvobj = vd.BlockKFold(spacing=34.0, n_splits=2, shuffle=True, random_state=seed)
+            thunk = lambda: vd.cross_val_score(vd.Trend(1), ds.coordinates, ds.data_arg(), ds.weights_arg(), cv=cvobj)  # noqa: E731
         else:
             thunk = lambda: vd.cross_val_score(vd.Trend(1), ds.coordinates, ds.data_arg(), ds.weights_arg())  # noqa: E731
         desc = f"{kind}(seed={seed})"
@@ -591,8 +651,9 @@ class History:
             return
         # same-shape, different-content variant of the dataset: a call on it between two identical
         # calls must not disturb what the first one returned (scratch buffers, caches keyed by shape)
-        alt_c = g.add_all(tuple(np.ascontiguousarray(np.ravel(x)[::-1]).reshape(x.shape) * 0.9 + 3.0 for x in ds.coordinates))
-        alt_d = g.add(np.ascontiguousarray(np.ravel(ds.data[0])[::-1]).reshape(ds.data[0].shape) * -1.5)
+        alt_ro = bool(self.tape.draw(2, "fn.alt_ro"))
+        alt_c = g.add_all(tuple(np.ascontiguousarray(np.ravel(x)[::-1]).reshape(x.shape) * 0.9 + 3.0 for x in ds.coordinates), alt_ro)
+        alt_d = g.add(np.ascontiguousarray(np.ravel(ds.data[0])[::-1]).reshape(ds.data[0].shape) * -1.5, alt_ro)
         pix = bool(self.ops % 2)
         interruptible = name != "project_grid"
         snap_grid = []
@@ -603,6 +664,12 @@ class History:
 
         def A(values):
             return g.add(np.array(values, dtype=float), readonly=ro) if as_arrays else values
+
+        class _G:  # extra argument arrays built for this call: read-only or writable like the rest
+            add = staticmethod(lambda a: g.add(a, readonly=ro))
+            add_all = staticmethod(lambda arrs: g.add_all(arrs, readonly=ro))
+
+        gx = _G
 
         region = A(region)
 
@@ -616,11 +683,11 @@ class History:
             # a geographic region whose west/east bounds move when brought to the coordinates' convention
             lon_region = A(self.lon_regions[k])
             if name == "variance_to_weights":
-                var = g.add(np.where(np.arange(d.size) % 5 == 0, np.nan, np.abs(np.ravel(d)) * 0.01 + 1e-3).reshape(d.shape))
+                var = gx.add(np.where(np.arange(d.size) % 5 == 0, np.nan, np.abs(np.ravel(d)) * 0.01 + 1e-3).reshape(d.shape))
                 return lambda: vd.variance_to_weights(var)
             if name == "variance_to_weights_tuple":
-                var = g.add(np.abs(np.ravel(d)) + 0.5)
-                var2 = g.add(np.where(np.arange(d.size) % 3 == 0, 0.0, 2.0 + k))
+                var = gx.add(np.abs(np.ravel(d)) + 0.5)
+                var2 = gx.add(np.where(np.arange(d.size) % 3 == 0, 0.0, 2.0 + k))
                 return lambda: vd.variance_to_weights((var, var2))
             if name == "block_split":
                 return lambda: vd.block_split(c, spacing=25.0)
@@ -643,19 +710,19 @@ class History:
             if name == "expanding_window":
                 return lambda: vd.expanding_window(c, center=center, sizes=sizes)
             if name == "longitude_continuity":
-                lon = g.add(c[0] * 3.6 - (180.0 if self.lon_shift else 0.0))
+                lon = gx.add(c[0] * 3.6 - (180.0 if self.lon_shift else 0.0))
                 return lambda: vd.longitude_continuity((lon, c[1]), lon_region)
             if name == "median_distance":
                 return lambda: vd.median_distance(c, k_nearest=2)
             if name == "distance_mask":
-                gc = g.add_all(vd.grid_coordinates(region, spacing=20.0))
+                gc = gx.add_all(vd.grid_coordinates(region, spacing=20.0))
                 return lambda: vd.distance_mask(c, 15.0, coordinates=gc)
             if name == "convexhull_mask":
-                gc = g.add_all(vd.grid_coordinates(region, spacing=20.0))
+                gc = gx.add_all(vd.grid_coordinates(region, spacing=20.0))
                 return lambda: vd.convexhull_mask(c, coordinates=gc)
             if name == "make_xarray_grid":
-                gc = g.add_all(vd.grid_coordinates(region, spacing=25.0))
-                gd = g.add(gc[0] * (2 + k) - gc[1])
+                gc = gx.add_all(vd.grid_coordinates(region, spacing=25.0))
+                gd = gx.add(gc[0] * (2 + k) - gc[1])
                 return lambda: vd.make_xarray_grid(gc, gd, data_names="z")
             if name == "grid_to_table":
                 gc = vd.grid_coordinates(region, spacing=25.0)
@@ -826,7 +893,7 @@ class History:
         li = self.tape.draw(len(self.lives), "op.live")
         live = self.lives[li]
         op = self.tape.weighted(
-            [("fit", 6), ("query", 5), ("repeat", 2), ("reject", 2), ("copy", 2), ("function", 4), ("seeded", 2), ("perturb", 1), ("invalid", 2)],
+            [("fit", 6), ("query", 5), ("repeat", 2), ("reject", 2), ("copy", 2), ("reparam", 1), ("function", 4), ("seeded", 2), ("perturb", 1), ("invalid", 2)],
             "op",
         )
         if op == "fit":
@@ -839,6 +906,8 @@ class History:
             self.op_reject(li, live)
         elif op == "copy":
             self.op_copy(li, live)
+        elif op == "reparam":
+            self.op_reparam(li, live)
         elif op == "function":
             self.op_function()
         elif op == "seeded":
